@@ -165,6 +165,37 @@ def fault_sweep(kind, rng, thorough):
     return out
 
 
+def model_conformance(tf, behs, index):
+    """Store.tla predicts ProcessBlock's answer for every operation of an exported behaviour (field exp): compare it with the
+    answer of the real store. Information about the specification (reported as drift), never a verdict about the code."""
+    want = {"ok": "ok", "inconsistent": "incons"}
+    compared = drift = 0
+    by, sample, ops, k = {}, None, None, 0
+    for line in open(tf):
+        if '"ev":"reset"' in line[:300].replace(" ", ""):
+            e = json.loads(line)
+            ops = [o for o in behs[index[e["t"] - 1]]["ops"] if o["op"] == "process"]
+            k = 0
+        elif ops is not None and '"ev":"process"' in line[:600].replace(" ", ""):
+            e = json.loads(line)
+            if k < len(ops) and "exp" in ops[k] and ops[k]["num"] == e["num"]:
+                o = ops[k]
+                # a fault that was not reached (disk faults), or a kill that came after the block was done, is no fault
+                if not (e.get("fault") in ("ioread", "iowrite") and not e.get("fired")) and not (e.get("fault") == "kill" and e["res"] == "ok"):
+                    compared += 1
+                    w = want.get(o["exp"], "err")
+                    if e["res"] != w:
+                        drift += 1
+                        fk = e.get("fault", "none")
+                        by[fk] = by.get(fk, 0) + 1
+                        if os.environ.get("VERIF_DEBUG_DRIFT"):
+                            print("DRIFT", json.dumps(dict(op=o, code=e["res"], err=e.get("err"), fired=e.get("fired"), evfault=e.get("fault"))))
+                        sample = sample or dict(op={x: o[x] for x in ("num", "evs", "fault")}, model=o["exp"], code=e["res"], err=e.get("err"))
+            k += 1
+    return dict(compared=compared, drift=drift, drift_by_fault=by, sample=sample,
+                meaning="answers of the real ProcessBlock (ok / error / inconsistent state) against the answer Store.tla predicts for the same operation of the same behaviour")
+
+
 def count_ops(behs):
     return sum(len(b["ops"]) for b in behs)
 
@@ -261,6 +292,10 @@ def store_check(prop, model_cfgs, gen_cfgs, quick_n, thorough_n, kinds_note, inv
         if rb is None:
             st = selftest or default_selftest
             st(tf, sc)
+        conf = model_conformance(tf, behs, index)
+        if conf["drift"]:
+            res.notes.append("model drift: %d of %d ProcessBlock answers differ from Store.tla's own prediction (by fault kind: %s), e.g. %s"
+                             % (conf["drift"], conf["compared"], json.dumps(conf["drift_by_fault"]), json.dumps(conf["sample"])[:400]))
         nproc = sum(1 for b in behs for o in b["ops"] if o["op"] == "process")
         nfault = sum(1 for b in behs for o in b["ops"] if o["op"] == "process" and o.get("fault", {}).get("kind", "none") != "none")
         nreorg = sum(1 for b in behs for o in b["ops"] if o["op"] == "reorg")
@@ -277,6 +312,7 @@ def store_check(prop, model_cfgs, gen_cfgs, quick_n, thorough_n, kinds_note, inv
             states=sum(m["distinct"] for m in mcs), transitions=sum(m["generated"] for m in mcs),
             traces_validated_against_impl=len(behs),
             samples=[behs[0], behs[len(behs) // 2], behs[-1]],
+            model_conformance=conf,
             exhaustive=False, evaluations=count_ops(behs), distinct_nontrivial=len(set(json.dumps(b, sort_keys=True) for b in behs if len(b["ops"]) >= 2)),
             rule="behaviours = prefix-maximal paths of TLC's edge cover of Store.tla under the generator configs (seeded sample in the quick "
                  "tier) + regression behaviours of fixed findings; evaluations = operations replayed into the real store, each followed by "
